@@ -3,4 +3,7 @@
 cd "$(dirname "$0")" || exit 1
 export PYTHONPATH="$(pwd)" PYTHONDONTWRITEBYTECODE=1
 python3-vt -c "import pyvc.runner, pyvc.verify, z3; print('pyvc ok, z3', z3.get_version_string())" || exit 1
+# differential self-test of the engine's concrete semantics against CPython (informational: a difference is printed, the
+# checks themselves decide their own exit codes)
+python3-vt tools_crosscheck.py 1000 2>&1 | tail -3 || true
 exit 0
